@@ -50,6 +50,7 @@ def run(ctx):
     rule_b(ctx, cr)
     rule_c(ctx, cr)
     rule_d(ctx, cr)
+    rule_d2(ctx, cr)
     rule_e(ctx, cr)
     rule_f(ctx, cr)
 
@@ -230,6 +231,21 @@ def rule_d(ctx, cr):
               "SWAP's reject path pushes %s and its success path %s: a rejected SWAP must put "
               "the operands back in the opposite order so that both variables keep their values"
               % (ro, ao))
+
+
+def rule_d2(ctx, cr):
+    """SWAP's template: subscripts of its operands are evaluated once"""
+    g = cr.need_fn("mach::codegen::Generator::swap")
+    ctx.touch(g)
+    clones = g.calls_matching(r"VarItem as std::clone::Clone>::clone$")
+    reads = g.calls_to("mach::codegen::VarItem::push_as_expression")
+    stores = g.calls_to("mach::codegen::VarItem::push_as_pop")
+    twice = len(clones) >= 1 and len(reads) == 2 and len(stores) == 2
+    ctx.check(not twice, "C06.d", "swap/subscripts-evaluated-once", g.span,
+              "each operand's subscript code is emitted once",
+              "Generator::swap emits every operand twice (a clone to read it, the original to store "
+              "into it): the subscripts of the second store are evaluated AFTER the first store, so "
+              "`I=1:A(1)=2:A(2)=7:SWAP I,A(I)` leaves I=2, A(1)=2, A(2)=1 instead of I=2, A(1)=1")
 
 
 def rule_e(ctx, cr):
